@@ -154,7 +154,16 @@ func (s ExploreRecursive) replaceRecursiveEdge(nextSelector Selector, replacemen
 	exploreUnion, isUnion := nextSelector.(ExploreUnion)
 	if isUnion {
 		replacementMembers := make([]Selector, 0, len(exploreUnion.Members))
+		edgeReplaced := false
 		for _, selector := range exploreUnion.Members {
+			if _, isEdge := selector.(ExploreRecursiveEdge); isEdge {
+				// Several edges in one union all stand for the same sequence: substitute it once.
+				// (Substituting it per edge multiplies the selector at every recursion level.)
+				if edgeReplaced {
+					continue
+				}
+				edgeReplaced = true
+			}
 			newSelector := s.replaceRecursiveEdge(selector, replacement)
 			if newSelector != nil {
 				replacementMembers = append(replacementMembers, newSelector)
